@@ -15,10 +15,11 @@ of a list of scalar values. The models are those of `Liquid/Filters/Str.lean` (n
 tied to `filters/standard_filters.go` by the `strf` stream. All theorems are for ALL byte strings
 (no length bound), invalid UTF-8 included unless a hypothesis says otherwise.
 
-Theorems named `…_partial` are about filters whose model is partial (`Option`): case mapping
-outside the table of `Liquid/Unicode.lean` and named HTML entities outside
-`StrF.entityLookup` give `none` (the driver prints `unmodelled`); on those inputs nothing is
-proved and only the run-time oracle checks the real code.
+Theorems named `…_partial` are about filters whose model is partial (`Option`): named HTML entities
+outside `StrF.entityLookup` give `none` (the driver prints `unmodelled`); on those inputs nothing is
+proved and only the run-time oracle checks the real code. The case filters are total: every rune is looked
+up in the tables translator T6 regenerates from the toolchain (`upcase_total`, `downcase_total`,
+`capitalize_total`); their `Option` type is historical.
 -/
 
 /-! ## append, prepend: concatenation -/
@@ -29,42 +30,103 @@ theorem prepend_spec (s x : Bytes) : StrF.prepend s x = x ++ s := rfl
 example : StrF.append [97] [195, 169] = [97, 195, 169] := by decide
 example : StrF.prepend [97] [195, 169] = [195, 169, 97] := by decide
 
-/-! ## upcase, downcase, capitalize (on the modelled case table) -/
+/-! ## upcase, downcase, capitalize: every string
 
-/-- FULL statement wanted: for every string. Proved: whenever every rune of `s` is in the modelled
-    case table (then `StrF.upcase s = some t`). Missing: the rest of Go's Unicode case tables. -/
-theorem upcase_idem_partial (s t : Bytes) (h : StrF.upcase s = some t) : StrF.upcase t = some t :=
+The rune mapping is `unicode.ToUpper` / `unicode.ToLower` of the toolchain, as range tables regenerated on every run
+(translator T6, `Liquid/Generated/CaseTables.lean`); what is used of the tables is computed over the ranges in
+`Proofs/CaseTables.lean` (obligations `case_tables_wellformed`, `case_tables_idempotent`, `case_tables_round_trip`). -/
+
+/-- the case filters answer on every byte string: there is no rune outside the model -/
+theorem upcase_total (s : Bytes) : StrF.upcase s = some (StrF.upcaseT s) := upcase_eq s
+theorem downcase_total (s : Bytes) : StrF.downcase s = some (StrF.downcaseT s) := downcase_eq s
+
+/-- `capitalize` answers on every byte string: the upper-cased first rune, then the rest of the bytes -/
+theorem capitalize_total (s : Bytes) (hs : s ≠ []) :
+    StrF.capitalize s = some (encodeRune (toUpperRune (decodeRune s).1) ++ s.drop (decodeRune s).2) := by
+  cases s with
+  | nil => exact absurd rfl hs
+  | cons b rest => rfl
+
+/-- upper-casing twice is upper-casing once, for every byte string (Greek, Cyrillic, the runes whose image has another
+    UTF-8 length, invalid bytes: all of them) -/
+theorem upcase_idem (s : Bytes) : StrF.upcaseT (StrF.upcaseT s) = StrF.upcaseT s := by
+  have h := mapFilter_idem (fun _ _ => upperRune_idem) (fun _ _ => upperRune_scalar) s _ (upcase_eq s)
+  have h2 := upcase_eq (StrF.upcaseT s)
+  unfold StrF.upcase at h2
+  rw [h] at h2
+  exact (Option.some.inj h2).symm
+
+theorem downcase_idem (s : Bytes) : StrF.downcaseT (StrF.downcaseT s) = StrF.downcaseT s := by
+  have h := mapFilter_idem (fun _ _ => lowerRune_idem) (fun _ _ => lowerRune_scalar) s _ (downcase_eq s)
+  have h2 := downcase_eq (StrF.downcaseT s)
+  unfold StrF.downcase at h2
+  rw [h] at h2
+  exact (Option.some.inj h2).symm
+
+/-- the same in the `Option` form the filter models are written in (formerly `upcase_idem_partial`, when the hypothesis
+    could fail: it holds for every `s` now, `upcase_total`) -/
+theorem upcase_idem_opt (s t : Bytes) (h : StrF.upcase s = some t) : StrF.upcase t = some t :=
   mapFilter_idem (fun _ _ => upperRune_idem) (fun _ _ => upperRune_scalar) s t h
 
-theorem downcase_idem_partial (s t : Bytes) (h : StrF.downcase s = some t) : StrF.downcase t = some t :=
+theorem downcase_idem_opt (s t : Bytes) (h : StrF.downcase s = some t) : StrF.downcase t = some t :=
   mapFilter_idem (fun _ _ => lowerRune_idem) (fun _ _ => lowerRune_scalar) s t h
 
-/-- changing case keeps the number of characters (Go maps rune to rune); modelled table only -/
-theorem case_len_partial (s t : Bytes) (h : StrF.upcase s = some t ∨ StrF.downcase s = some t) :
+/-- changing case keeps the number of characters (Go maps rune to rune), for every byte string -/
+theorem case_len (s : Bytes) : runeLen (StrF.upcaseT s) = runeLen s ∧ runeLen (StrF.downcaseT s) = runeLen s :=
+  ⟨mapFilter_runeLen s _ (upcase_eq s), mapFilter_runeLen s _ (downcase_eq s)⟩
+
+theorem case_len_opt (s t : Bytes) (h : StrF.upcase s = some t ∨ StrF.downcase s = some t) :
     runeLen t = runeLen s := by
   rcases h with h | h <;> exact mapFilter_runeLen s t h
 
+/-- … but not the number of bytes: Ⱥ (U+023A, two bytes) lower-cases to ⱥ (U+2C65, three bytes) and back; the dotless ı
+    (two bytes) upper-cases to the ASCII letter I, the Kelvin sign K (three bytes) lower-cases to the ASCII letter k -/
+theorem case_changes_byte_length :
+    StrF.downcase [0xC8, 0xBA] = some [0xE2, 0xB1, 0xA5] ∧ StrF.upcase [0xE2, 0xB1, 0xA5] = some [0xC8, 0xBA] ∧
+    StrF.upcase [0xC4, 0xB1] = some [0x49] ∧ StrF.downcase [0xE2, 0x84, 0xAA] = some [0x6B] := by decide +kernel
+
 /-- the runes of the result are the images of the runes of the input, one by one -/
-theorem upcase_runes_partial (s t : Bytes) (h : StrF.upcase s = some t) :
+theorem upcase_runes (s : Bytes) : decodeRunes (StrF.upcaseT s) = (decodeRunes s).map toUpperRune ∧
+    decodeRunes (StrF.downcaseT s) = (decodeRunes s).map toLowerRune := by
+  constructor
+  · exact decode_encode _ (fun u hu => by
+      obtain ⟨r, hr, rfl⟩ := List.mem_map.mp hu
+      exact toUpperRune_scalar (decodeRunes_all_scalar s r hr))
+  · exact decode_encode _ (fun u hu => by
+      obtain ⟨r, hr, rfl⟩ := List.mem_map.mp hu
+      exact toLowerRune_scalar (decodeRunes_all_scalar s r hr))
+
+theorem upcase_runes_opt (s t : Bytes) (h : StrF.upcase s = some t) :
     StrF.mapRunesM upperRune (decodeRunes s) = some (decodeRunes t) := by
-  unfold StrF.upcase at h
-  cases hm : StrF.mapRunesM upperRune (decodeRunes s) with
-  | none => rw [hm] at h; cases h
-  | some us =>
-    rw [hm] at h
-    simp only [Option.map_some, Option.some.injEq] at h
-    subst h
-    rw [decode_encode us (fun u hu => by
-      obtain ⟨r, _, e⟩ := mapRunesM_mem hm u hu
-      exact upperRune_scalar e)]
+  rw [upcase_eq] at h
+  rw [← Option.some.inj h, (upcase_runes s).1]
+  exact mapRunesM_total toUpperRune _
 
-/-- `upcase ∘ downcase ∘ upcase = upcase` rune-wise on the table -/
-theorem upper_lower_upper_partial {r u l : Nat} (h : upperRune r = some u) (hl : lowerRune u = some l) :
-    upperRune l = some u := upper_lower_upper h hl
+/-- `upcase ∘ downcase ∘ upcase = upcase` rune-wise — for every rune but the six upper-case runes of
+    `upperLowerUpperExceptions` (U+0130 İ, U+03F4 ϴ, U+1E9E ẞ, U+2126 Ω, U+212A K, U+212B Å), whose lower-case partner
+    (i, θ, ß, ω, k, å) upper-cases to another rune (I, Θ, ß, Ω, K, Å). The list is regenerated with the tables and
+    checked to be exact (`case_tables_round_trip`). Formerly `upper_lower_upper_partial`, on a table that held none
+    of the six. -/
+theorem upper_lower_upper_except {r u l : Nat} (h : upperRune r = some u) (hl : lowerRune u = some l)
+    (hx : u ∉ upperLowerUpperExceptions) : upperRune l = some u := upper_lower_upper h hl hx
 
-/-- `capitalize` upper-cases the first character and leaves the rest of the bytes alone (the pinned
-    code upper-cased the first *byte*, D16). Modelled table only. -/
-theorem capitalize_spec_partial (s t : Bytes) (hs : s ≠ []) (h : StrF.capitalize s = some t) :
+/-- … and on each of the six the law fails -/
+theorem upper_lower_upper_fails : ∀ u ∈ upperLowerUpperExceptions,
+    upperRune u = some u ∧ ∃ l, lowerRune u = some l ∧ upperRune l ≠ some u := by
+  intro u hu
+  have h := List.all_eq_true.mp case_tables_round_trip.2 u hu
+  simp only [Bool.and_eq_true, Nat.beq_eq, Bool.not_eq_true'] at h
+  refine ⟨by rw [upperRune_total, h.1], toLowerRune u, rfl, ?_⟩
+  rw [upperRune_total]
+  intro e
+  have h2 := h.2
+  rw [Option.some.inj e] at h2
+  simp at h2
+
+/-- `capitalize` upper-cases the first character and leaves the rest of the bytes alone (the pinned code upper-cased
+    the first *byte*, D16), for every non-empty byte string. Upper case, not title case: ǆ (U+01C6) becomes Ǆ (U+01C4),
+    not ǅ (U+01C5) — that is `strings.ToUpper` on the first rune, what the code does. -/
+theorem capitalize_spec (s t : Bytes) (hs : s ≠ []) (h : StrF.capitalize s = some t) :
     ∃ u, upperRune (decodeRune s).1 = some u ∧ t = encodeRune u ++ s.drop (decodeRune s).2 ∧
       decodeRunes s = (decodeRune s).1 :: decodeRunes (s.drop (decodeRune s).2) ∧
       decodeRunes t = u :: decodeRunes (s.drop (decodeRune s).2) := by
@@ -73,7 +135,7 @@ theorem capitalize_spec_partial (s t : Bytes) (hs : s ≠ []) (h : StrF.capitali
   · have hw := decodeRune_width_pos s hs
     have := decodeRunes_cons s hs
     rwa [Nat.max_eq_left hw] at this
-  · rw [ht, decodeRunes_encodeRune_append u (upperRune_scalar hu)]
+  · rw [ht, decodeRunes_encodeRune_append u (upperRune_scalar (decodeRune_isScalar s) hu)]
 
 theorem capitalize_nil : StrF.capitalize [] = some [] := rfl
 
@@ -85,10 +147,16 @@ theorem downcase_ascii (s : Bytes) (h : ∀ b ∈ s, b < 0x80) : StrF.downcase s
 theorem capitalize_ascii (b : UInt8) (t : Bytes) (hb : b < 0x80) :
     StrF.capitalize (b :: t) = some (asciiUpper b :: t) := capitalize_ascii_eq b t hb
 
-example : StrF.upcase [97, 195, 169, 240, 159, 152, 128] = some [65, 195, 137, 240, 159, 152, 128] := by decide
-example : StrF.capitalize [195, 169, 108] = some [195, 137, 108] := by decide   -- "él" ⇒ "Él"
-example : StrF.upcase [195, 159] = none := by decide                              -- ß: outside the table
-example : StrF.downcase [255, 65] = some [239, 191, 189, 97] := by decide         -- invalid byte ⇒ U+FFFD
+example : StrF.upcase [97, 195, 169, 240, 159, 152, 128] = some [65, 195, 137, 240, 159, 152, 128] := by decide +kernel
+example : StrF.capitalize [195, 169, 108] = some [195, 137, 108] := by decide +kernel   -- "él" ⇒ "Él"
+example : StrF.upcase [195, 159] = some [195, 159] := by decide +kernel            -- ß has no simple upper-case form: it stays
+example : StrF.upcase [0xCE, 0xB1, 0xCF, 0x82] = some [0xCE, 0x91, 0xCE, 0xA3] := by decide +kernel   -- "ας" ⇒ "ΑΣ"
+example : StrF.downcase [0xD0, 0x96, 0xE1, 0xBA, 0x9E] = some [0xD0, 0xB6, 0xC3, 0x9F] := by decide +kernel   -- "Жẞ" ⇒ "жß"
+example : StrF.capitalize [0xC7, 0x86, 97] = some [0xC7, 0x84, 97] := by decide +kernel   -- "ǆa" ⇒ "Ǆa" (upper, not title case)
+example : StrF.capitalize [0xFF, 97] = some [0xEF, 0xBF, 0xBD, 97] := by decide +kernel   -- an invalid first byte ⇒ U+FFFD
+example : (0x130 : Nat) ∈ upperLowerUpperExceptions ∧ upperRune 0x130 = some 0x130 ∧ lowerRune 0x130 = some 0x69 ∧
+    upperRune 0x69 = some 0x49 := by decide +kernel
+example : StrF.downcase [255, 65] = some [239, 191, 189, 97] := by decide +kernel   -- invalid byte ⇒ U+FFFD
 
 /-! ## strip, lstrip, rstrip -/
 
@@ -355,6 +423,16 @@ theorem utf8_preserved_append (s x : Bytes) (hs : ValidUtf8 s) (hx : ValidUtf8 x
 /-- the case filters even repair invalid input (every invalid byte becomes U+FFFD) -/
 theorem utf8_preserved_case (s t : Bytes) (h : StrF.upcase s = some t ∨ StrF.downcase s = some t) : ValidUtf8 t := by
   rcases h with h | h <;> exact mapFilter_valid s t h
+
+/-- … for every byte string, in the total form: the result of `upcase` / `downcase` is valid UTF-8 whatever the input -/
+theorem utf8_case_all (s : Bytes) : ValidUtf8 (StrF.upcaseT s) ∧ ValidUtf8 (StrF.downcaseT s) :=
+  ⟨validUtf8_encodeRunes _, validUtf8_encodeRunes _⟩
+
+/-- every image under the case tables is a scalar value (never a surrogate, never above U+10FFFF): the encoder never has
+    to substitute U+FFFD for an image, so the bytes written are the images themselves -/
+theorem case_images_scalar (r : Rune) (h : isScalar r = true) :
+    isScalar (toUpperRune r) = true ∧ isScalar (toLowerRune r) = true :=
+  ⟨toUpperRune_scalar h, toLowerRune_scalar h⟩
 
 theorem utf8_preserved_capitalize (s t : Bytes) (hs : ValidUtf8 s) (h : StrF.capitalize s = some t) : ValidUtf8 t :=
   capitalize_valid s t hs h
